@@ -53,7 +53,9 @@ type spec struct {
 	op, fl, gi int
 	ht, hl     int
 	os         [5]int
-	yi, ci     int // 0 zero, 1 set
+	yi, ci     int  // 0 zero, 1 set
+	xi         int  // xid form: xidNonZero (index-derived), xidZero, xidOnes
+	nilEmpty   bool // hand-built: an "empty" option value is a nil slice instead of []byte{}
 }
 
 func (s spec) String() string {
@@ -63,7 +65,11 @@ func (s spec) String() string {
 			o = append(o, fmt.Sprintf("opt%d=%s", c, stateName[s.os[k]]))
 		}
 	}
-	return fmt.Sprintf("op=%d flags=%#04x giaddr=%s hwtype=%d hlen=%d yiaddr=%s ciaddr=%s %s", opcodes[s.op], flagsV[s.fl],
+	if s.nilEmpty {
+		o = append(o, "(empty values are nil slices)")
+	}
+	x := s.xid()
+	return fmt.Sprintf("xid=%x ", x[:]) + fmt.Sprintf("op=%d flags=%#04x giaddr=%s hwtype=%d hlen=%d yiaddr=%s ciaddr=%s %s", opcodes[s.op], flagsV[s.fl],
 		[]string{"nil", "0.0.0.0", "10.0.0.254"}[s.gi], htypes[s.ht], hlens[s.hl], []string{"0.0.0.0", "10.0.0.100"}[s.yi], []string{"0.0.0.0", "10.0.0.50"}[s.ci], strings.Join(o, " "))
 }
 
@@ -114,8 +120,31 @@ func hwBytes(n int) []byte {
 	return b
 }
 
+const (
+	xidNonZero = iota
+	xidZero
+	xidOnes
+	nXidForms
+)
+
 func (s spec) xid() [4]byte {
+	switch s.xi {
+	case xidZero:
+		return [4]byte{}
+	case xidOnes:
+		return [4]byte{0xff, 0xff, 0xff, 0xff}
+	}
 	return [4]byte{0xc1, byte(s.idx >> 16), byte(s.idx >> 8), byte(s.idx)}
+}
+
+// value renders option state st of code c for the hand-built (decoded=false)
+// or decoded input. A zero-length value is nil after the wire trip (that is
+// what the decoder stores) and for nilEmpty specs, []byte{} otherwise.
+func (s spec) value(c uint8, st int, decoded bool) []byte {
+	if st == stEmpty && (decoded || s.nilEmpty) {
+		return nil
+	}
+	return optValue(c, st)
 }
 
 // hops: a relayed packet (giaddr set) has made one hop.
@@ -167,7 +196,7 @@ func (s spec) lib() *dhcpv4.DHCPv4 {
 	}
 	for k, c := range optCodes {
 		if s.os[k] != stAbsent {
-			p.Options[c] = optValue(c, s.os[k])
+			p.Options[c] = s.value(c, s.os[k], false)
 		}
 	}
 	if t, ok := s.inputType(); ok {
@@ -179,8 +208,9 @@ func (s spec) lib() *dhcpv4.DHCPv4 {
 	return p
 }
 
-// ref builds the same input as a reference value (independently of lib()).
-func (s spec) ref() *ref.Packet {
+// ref builds the same input as a reference value (independently of lib());
+// decoded selects the reading after the ToBytes/FromBytes trip.
+func (s spec) ref(decoded bool) *ref.Packet {
 	p := &ref.Packet{Op: opcodes[s.op], HType: htypes[s.ht], Hops: s.hops(), Xid: s.xid(), Secs: 3, Flags: flagsV[s.fl], SI: addrSI,
 		CHAddr: hwBytes(hlens[s.hl]), Opts: map[uint8][]byte{}}
 	if s.ci == 1 {
@@ -194,7 +224,7 @@ func (s spec) ref() *ref.Packet {
 	}
 	for k, c := range optCodes {
 		if s.os[k] != stAbsent {
-			p.Opts[c] = optValue(c, s.os[k])
+			p.Opts[c] = s.value(c, s.os[k], decoded)
 		}
 	}
 	if t, ok := s.inputType(); ok {
@@ -204,7 +234,7 @@ func (s spec) ref() *ref.Packet {
 }
 
 // radix of the full product, least significant digit first.
-var radix = []int64{4, 4, 3, 2, 3, nStates, nStates, nStates, nStates, nStates, 2, 2}
+var radix = [13]int64{4, 4, 3, 2, 3, nStates, nStates, nStates, nStates, nStates, 2, 2, nXidForms}
 
 func productSize() int64 {
 	n := int64(1)
@@ -218,7 +248,7 @@ func productSize() int64 {
 // digits vary fastest, index 0 is the simplest input.
 func specAt(i int64) spec {
 	s := spec{idx: i}
-	d := make([]int, len(radix))
+	var d [13]int
 	x := i
 	for k, r := range radix {
 		d[k] = int(x % r)
@@ -226,12 +256,12 @@ func specAt(i int64) spec {
 	}
 	s.op, s.fl, s.gi, s.ht, s.hl = d[0], d[1], d[2], d[3], d[4]
 	copy(s.os[:], d[5:10])
-	s.yi, s.ci = d[10], d[11]
+	s.yi, s.ci, s.xi = d[10], d[11], d[12]
 	return s
 }
 
 func indexOf(s spec) int64 {
-	d := []int{s.op, s.fl, s.gi, s.ht, s.hl, s.os[0], s.os[1], s.os[2], s.os[3], s.os[4], s.yi, s.ci}
+	d := []int{s.op, s.fl, s.gi, s.ht, s.hl, s.os[0], s.os[1], s.os[2], s.os[3], s.os[4], s.yi, s.ci, s.xi}
 	var i, m int64 = 0, 1
 	for k, r := range radix {
 		i += int64(d[k]) * m
@@ -364,7 +394,7 @@ func (k kase) refArgs() (in *ref.Packet, hw []byte, ip [4]byte) {
 	case ref.Discovery:
 		return nil, hwBytes(k.hl), ip
 	}
-	return k.sp.ref(), nil, ip
+	return k.sp.ref(k.decoded), nil, ip
 }
 
 // call runs the library builder.
@@ -430,7 +460,7 @@ func decodedInputOK(c *fw.Ctx, s spec) bool {
 	}
 	got, why := toRef(in)
 	if why == "" {
-		why, _ = ref.Diff(got, s.ref(), true)
+		why, _ = ref.Diff(got, s.ref(true), true)
 	}
 	if why != "" {
 		c.Unspecified("ToBytes/FromBytes changed the input (C01's subject): "+why, 1)
@@ -461,7 +491,8 @@ func checkDefaults(c *fw.Ctx, k kase, order int64, scope string) bool {
 
 // ---- modifier alphabet ----------------------------------------------------
 
-// Alphabet is the 12-element modifier alphabet; one instance collides with
+// Alphabet is the 13-element modifier alphabet (the 12 of the design plus
+// WithTransactionID(00000000)); one instance collides with
 // each default some builder sets.
 func Alphabet() []ref.Mod {
 	return []ref.Mod{
@@ -477,6 +508,7 @@ func Alphabet() []ref.Mod {
 		{Kind: ref.MYourIP, IP: [4]byte{10, 66, 0, 1}},
 		{Kind: ref.MServerIP, IP: [4]byte{10, 55, 0, 1}},
 		{Kind: ref.MGeneric, Code: 82, Val: []byte{1, 2, 'x', 'y'}}, // collides with the echoed option 82
+		{Kind: ref.MTransactionID, Xid: [4]byte{}},                  // the all-zero id is an id like any other and must prevail
 	}
 }
 
@@ -589,20 +621,20 @@ func checkPrecedence(c *fw.Ctx, k kase, base *ref.Packet, ms []ref.Mod, order in
 
 // precedenceInputs is the reduced input set for the modifier lists.
 func precedenceInputs() []kase {
-	mk := func(op, fl, gi, ht, hl int, os [5]int, yi, ci int) spec {
-		s := spec{op: op, fl: fl, gi: gi, ht: ht, hl: hl, os: os, yi: yi, ci: ci}
+	mk := func(op, fl, gi, ht, hl int, os [5]int, yi, ci, xi int) spec {
+		s := spec{op: op, fl: fl, gi: gi, ht: ht, hl: hl, os: os, yi: yi, ci: ci, xi: xi}
 		s.idx = indexOf(s)
 		return s
 	}
 	// digits: op index into {1,2,0,7}; flags index into {0,8000,ffff,0001}; hl index into {6,0,16}; options 82,61,54,55,50
-	reqRelayed := mk(0, 1, giSet, 0, 0, [5]int{stTypical, stTypical, stAbsent, stTypical, stAbsent}, 0, 0)
-	replyBare := mk(1, 0, giNil, 0, 0, [5]int{}, 0, 0)
-	reqOdd := mk(0, 2, giSet, 1, 2, [5]int{stMax, stOne, stAbsent, stAbsent, stTypical}, 0, 1)
-	offer := mk(1, 0, giZero, 0, 0, [5]int{stAbsent, stAbsent, stTypical, stAbsent, stAbsent}, 1, 0)
-	offerNoSid := mk(1, 1, giNil, 0, 0, [5]int{}, 1, 1)
-	offerFull := mk(1, 3, giSet, 0, 0, [5]int{stTypical, stTypical, stTypical, stTypical, stAbsent}, 1, 0)
-	ackBcast := mk(1, 1, giNil, 0, 0, [5]int{stAbsent, stAbsent, stTypical, stAbsent, stTypical}, 1, 0)
-	ackOdd := mk(1, 2, giSet, 1, 2, [5]int{stAbsent, stTypical, stTypical, stTypical, stAbsent}, 1, 1)
+	reqRelayed := mk(0, 1, giSet, 0, 0, [5]int{stTypical, stTypical, stAbsent, stTypical, stAbsent}, 0, 0, xidNonZero)
+	replyBare := mk(1, 0, giNil, 0, 0, [5]int{}, 0, 0, xidZero)
+	reqOdd := mk(0, 2, giSet, 1, 2, [5]int{stMax, stOne, stAbsent, stAbsent, stTypical}, 0, 1, xidOnes)
+	offer := mk(1, 0, giZero, 0, 0, [5]int{stAbsent, stAbsent, stTypical, stAbsent, stAbsent}, 1, 0, xidNonZero)
+	offerNoSid := mk(1, 1, giNil, 0, 0, [5]int{}, 1, 1, xidZero)
+	offerFull := mk(1, 3, giSet, 0, 0, [5]int{stTypical, stTypical, stTypical, stTypical, stAbsent}, 1, 0, xidNonZero)
+	ackBcast := mk(1, 1, giNil, 0, 0, [5]int{stAbsent, stAbsent, stTypical, stAbsent, stTypical}, 1, 0, xidNonZero)
+	ackOdd := mk(1, 2, giSet, 1, 2, [5]int{stAbsent, stTypical, stTypical, stTypical, stAbsent}, 1, 1, xidZero)
 	return []kase{
 		{b: ref.Reply, sp: reqRelayed},
 		{b: ref.Reply, sp: replyBare},
@@ -760,13 +792,29 @@ func quickSelected(s spec) bool {
 	return true // all five in the same state
 }
 
+// nilEmptySelected: inputs repeated with nil slices as empty values (scope a2).
+func nilEmptySelected(s spec) bool {
+	has := false
+	for _, st := range s.os {
+		switch st {
+		case stEmpty:
+			has = true
+		case stAbsent, stTypical:
+		default:
+			return false
+		}
+	}
+	return has
+}
+
 func Run(c *fw.Ctx) {
 	c.SetRule("cases are distinct by construction (injective enumeration of (builder, input form, input) and of (builder, input, modifier list)); non-trivial = the library builder returned a packet and it was compared with the reference (Appendix E clauses, or field-by-field with the reference fold); decoded inputs with giaddr=nil are not run (they decode to the giaddr=0.0.0.0 input)")
 
-	// (a) the four packet builders on the input product, hand-built and decoded
+	// (a) the four packet builders on the input product: hand-built, decoded, and
+	// (a2) hand-built with nil slices as the empty option values
 	total := productSize()
 	thorough := c.Thorough()
-	var selected, compared atomicCounter
+	var selected, compared, selected2, compared2 atomicCounter
 	c.Range(total, func(i int64) {
 		s := specAt(i)
 		if !thorough && !quickSelected(s) {
@@ -780,32 +828,46 @@ func Run(c *fw.Ctx) {
 			}
 			for bi, b := range packetBuilders {
 				k := kase{b: b, sp: s, decoded: f == 1}
-				if checkDefaults(c, k, i*8+int64(f*4+bi), "a:builders-on-input-product") {
+				if checkDefaults(c, k, i*12+int64(f*4+bi), "a:builders-on-input-product") {
 					n++
 				}
 			}
 		}
 		compared.add(n)
+		if nilEmptySelected(s) {
+			s2 := s
+			s2.nilEmpty = true
+			selected2.add(1)
+			for bi, b := range packetBuilders {
+				if checkDefaults(c, kase{b: b, sp: s2}, i*12+int64(8+bi), "a2:hand-built-nil-empty-values") {
+					compared2.add(1)
+				}
+			}
+		}
 		if n > 0 && i%400009 == 11 {
 			k := kase{b: ref.Reply, sp: s}
-			if out, ok := build(c, k, nil, i*8, "a"); ok {
+			if out, ok := build(c, k, nil, i*12, "a"); ok {
 				c.Sample(map[string]any{"scope": "a", "case": k.describe(), "result": out.Describe()})
 			}
 		}
 	})
-	c.Nontrivial(compared.load())
-	c.Eval(compared.load() - total) // Range counted one per index (also for indices the quick tier skips); count builder runs instead
+	c.Nontrivial(compared.load() + compared2.load())
+	c.Eval(compared.load() + compared2.load() - total) // Range counted one per index (also for indices the quick tier skips); count builder runs instead
 	optScope := "full product 5^5"
 	if !thorough {
 		optScope = "≤2 options present in all state combinations (every single option × 5 states and every pair × 5×5, others absent) + all five options in the same state"
 	}
 	c.Scope("a:builders-on-input-product", "builders", "NewReplyFromRequest NewRequestFromOffer NewRenewFromAck NewReleaseFromACK",
 		"opcode", "1 2 0 7", "flags", "0000 8000 ffff 0001", "giaddr", "nil 0.0.0.0 10.0.0.254", "hwtype", "1 6", "hwaddr_len", "6 0 16",
-		"options_82_61_54_55_50_states", "absent, empty value, 1 byte, typical, 255 bytes", "option_combinations", optScope,
+		"xid", "non-zero (index-derived), 00000000, ffffffff",
+		"options_82_61_54_55_50_states", "absent, empty value ([]byte{} hand-built; nil after the wire trip), 1 byte, typical, 255 bytes", "option_combinations", optScope,
 		"yiaddr", "0.0.0.0 10.0.0.100", "ciaddr", "0.0.0.0 10.0.0.50", "siaddr", "10.9.9.9 (differs from option 54)", "hops", "1 when giaddr is set, else 0", "option_53", "DISCOVER for opcode 1, OFFER for opcode 2, none for 0 and 7 (hand-built packet without any option has a nil Options map)",
 		"input_forms", "hand-built struct; ToBytes/FromBytes trip of it (skipped for giaddr=nil, same decoded packet as 0.0.0.0)",
+		"empty_value_rule", "value nil (decoded input, hand-built nil slice) => copied option must be omitted; hand-built []byte{} => omitted or echoed empty (DESIGN §8a-3)",
 		"inputs", selected.load(), "builder_results_compared", compared.load())
-	ord := total * 8
+	c.Scope("a2:hand-built-nil-empty-values", "what", "the inputs of scope a whose options are all in {absent, empty, typical} with at least one empty, hand-built with a nil slice as the empty value (decoded form not repeated: same packet as in scope a)",
+		"inputs", selected2.load(), "builder_results_compared", compared2.load())
+	ord := total * 12
 
 	// (b) NewInform / NewDiscovery on every argument combination
 	nb := int64(0)
